@@ -56,7 +56,7 @@ theorem utf8Bytes_head_some (d : Char) : ∃ b, (utf8Bytes d)[0]? = some b := by
 
 /-! ### `str::find(char)` and slicing -/
 
-theorem findChar_none {c : Char} {t : Text} (h : hfFindChar c t = none) : c ∉ t := by
+theorem hfFindChar_none {c : Char} {t : Text} (h : hfFindChar c t = none) : c ∉ t := by
   induction t with
   | nil => simp
   | cons d t ih =>
@@ -68,7 +68,7 @@ theorem findChar_none {c : Char} {t : Text} (h : hfFindChar c t = none) : c ∉ 
       | none => simp [ih hf]; exact fun h' => hd h'.symm
       | some k => simp [hf] at h
 
-theorem findChar_some {c : Char} {t : Text} {i : Nat} (h : hfFindChar c t = some i) :
+theorem hfFindChar_some {c : Char} {t : Text} {i : Nat} (h : hfFindChar c t = some i) :
     ∃ pre rest, t = pre ++ c :: rest ∧ c ∉ pre ∧ i = blen pre := by
   induction t generalizing i with
   | nil => simp [hfFindChar] at h
@@ -164,13 +164,13 @@ theorem unescLoop_eq (line : Text) : ∀ (fuel : Nat) (str : Text) (copy : Optio
     simp only [unescLoop]
     cases hfind : hfFindChar '\\' str with
     | none =>
-      have hn := findChar_none hfind
+      have hn := hfFindChar_none hfind
       simp only [unescChars_no_bs hn]
       cases copy with
       | none => simp [hc rfl]
       | some s => simp
     | some i =>
-      obtain ⟨pre, rest, hstr, hpre, hi⟩ := findChar_some hfind
+      obtain ⟨pre, rest, hstr, hpre, hi⟩ := hfFindChar_some hfind
       subst hstr hi
       simp only [sliceTo_append]
       have hlen : blen (pre ++ '\\' :: rest) = blen pre + 1 + blen rest := by
